@@ -401,10 +401,11 @@ def call(F, fname, *a, **kw):
             if b is not None and not np.array_equal(v, b, equal_nan=True):
                 F.add("input-mutated", None, {"func": fname, "argument": k})
                 raise Abort()
-        _S["ncall"] = _S.get("ncall", 0) + 1
-        if _S["ncall"] % 5 == 0:
+        _S["n_" + fname] = _S.get("n_" + fname, 0) + 1   # per function: every one of them is sampled
+        if _S["n_" + fname] % 4 == 1:
             verdict, detail = history.reuse_check(getattr(_S["g"], fname), a, kw)
-            _S["hist_" + verdict] = _S.get("hist_" + verdict, 0) + 1
+            hk = "history.reuse_%s.%s" % (verdict.replace("/", ""), fname)
+            _S.setdefault("hist", {})[hk] = _S.setdefault("hist", {}).get(hk, 0) + 1
             if verdict == "stale":
                 F.add("stale-state", None, dict(detail, func=fname))
                 raise Abort()
@@ -1057,9 +1058,8 @@ def run_shard(spec, rec):
     ctx = Ctx(rec, spec)
     rng = np_rng_for(spec["seed"], "c07-" + spec["kind"], spec["shard"])
     {"conv": run_conv, "los": run_los, "dist": run_dist}[spec["kind"]](ctx, rng, int(spec["n"]))
-    for k in ("ok", "n/a", "stale"):
-        if _S.get("hist_" + k):
-            rec.count("history.reuse_" + k.replace("/", ""), _S.pop("hist_" + k))
+    for hk, v in sorted(_S.pop("hist", {}).items()):
+        rec.count(hk, v)
 
 
 def replay(case, rec):
